@@ -58,10 +58,10 @@ theorem wfPat_date (bits inArg long args spec) :
   | some fz => rw [wfPat]
 theorem wfPat_mdc (bits inArg long key dflt spec) :
     wfPat bits inArg (.mdc long key dflt spec) =
-      (!key.isEmpty && key.all (wfLit true) &&
+      (key.all (wfLit true) &&
       (match dflt with
         | none => true
-        | some d => !d.isEmpty && d.all (wfLit true)) && wfSpec bits spec) := by
+        | some d => d.all (wfLit true)) && wfSpec bits spec) := by
   cases dflt with
   | none => rw [wfPat]
   | some d => rw [wfPat]
@@ -70,6 +70,16 @@ theorem wfPat_group (bits inArg k long body spec) :
 theorem wfPats_nil (bits inArg) : wfPats bits inArg [] = true := by rw [wfPats]
 theorem wfPats_cons (bits inArg p ps) :
     wfPats bits inArg (p :: ps) = (wfPat bits inArg p && wfPats bits inArg ps) := by rw [wfPats]
+
+theorem depthPat_lit (l) : depthPat (.lit l) = 0 := by rw [depthPat]
+theorem depthPat_leaf (k long spec) : depthPat (.leaf k long spec) = 0 := by rw [depthPat]
+theorem depthPat_date_none (long spec) : depthPat (.date long none spec) = 0 := by rw [depthPat]
+theorem depthPat_date_some (long fz spec) : depthPat (.date long (some fz) spec) = 1 := by rw [depthPat]
+theorem depthPat_mdc (long key dflt spec) : depthPat (.mdc long key dflt spec) = 1 := by rw [depthPat]
+theorem depthPat_group (k long body spec) : depthPat (.group k long body spec) = depthPats body + 1 := by
+  rw [depthPat]
+theorem depthPats_nil : depthPats [] = 0 := by rw [depthPats]
+theorem depthPats_cons (p ps) : depthPats (p :: ps) = max (depthPat p) (depthPats ps) := by rw [depthPats]
 
 theorem plainLit_wf {l : Lit} (h : plainLit l = true) : wfLit true l = true := by
   simp only [plainLit, Bool.and_eq_true, Bool.not_eq_true', beq_iff_eq] at h
@@ -95,7 +105,7 @@ theorem showPat_head (bits : Nat) (inArg : Bool) (p : Pat) (rest : List Char)
       intro he; simp [plainChar, he] at hnp
     rw [showPat_lit]
     -- the first component is not needed here; any parser instance does
-    obtain ⟨hd, tl, h1, h2⟩ := (next_escape asciiClass Profile.debug64 inArg l rest hwf he).2
+    obtain ⟨hd, tl, h1, h2⟩ := (next_escape asciiClass Profile.debug64 0 inArg l rest hwf he).2
     exact ⟨hd, tl, h1, h2, Or.inr ⟨l, rfl, he⟩⟩
   | leaf k long spec => exact ⟨'{', _, by rw [showPat_leaf]; rfl, by decide, Or.inl (by decide)⟩
   | date long args spec => exact ⟨'{', _, by rw [showPat_date]; rfl, by decide, Or.inl (by decide)⟩
@@ -129,15 +139,16 @@ mutual
 /-- `next` on a printed escape or formatter followed by anything -/
 theorem next_nonplain (cc : CharClass) (hcc : CCAscii cc) (P : Profile) (hus : P.underscoreNames = true)
     (hP : P.doubledCloseParen = true) :
-    ∀ (p : Pat) (inArg : Bool), wfPat P.wordBits inArg p = true → plainChar p = none →
-      ∀ rest : List Char, next cc P (showPat p ++ rest) = .ok (some (pieceOf p)) rest
-  | .lit l, inArg, hwf, hnp, rest => by
+    ∀ (p : Pat) (d : Nat) (inArg : Bool), wfPat P.wordBits inArg p = true → plainChar p = none →
+      depthPat p + d ≤ P.maxDepth →
+      ∀ rest : List Char, nextAt cc P d (showPat p ++ rest) = .ok (some (pieceOf p)) rest
+  | .lit l, d, inArg, hwf, hnp, _, rest => by
     rw [wfPat_lit] at hwf
     have he : l.esc ≠ .plain := by
       intro he; simp [plainChar, he] at hnp
     rw [showPat_lit, pieceOf_lit]
-    exact (next_escape cc P inArg l rest hwf he).1
-  | .leaf k long spec, inArg, hwf, _, rest => by
+    exact (next_escape cc P d inArg l rest hwf he).1
+  | .leaf k long spec, d, inArg, hwf, _, _, rest => by
     rw [wfPat_leaf] at hwf
     have hspec := hwf
     obtain ⟨t, tl, htl, ht⟩ := specTail_head spec rest
@@ -145,12 +156,12 @@ theorem next_nonplain (cc : CharClass) (hcc : CCAscii cc) (P : Profile) (hus : P
     have hre : ('{' :: (leafName k long ++ showSpec spec ++ ['}'])) ++ rest =
         '{' :: (leafName k long ++ t :: tl) := by simp [← htl]
     rw [hre]
-    refine next_named cc hcc P _ t tl [] spec rest (isName_leaf cc hcc P hus k long) ?_ ?_ hspec
+    refine next_named cc hcc P d _ t tl [] spec rest (isName_leaf cc hcc P hus k long) ?_ ?_ hspec
     · rcases ht with h | h
       · exact Or.inl h
       · exact Or.inr (Or.inl h)
-    · rw [← htl]; exact argsL_done cc P spec rest []
-  | .date long args spec, inArg, hwf, _, rest => by
+    · rw [← htl]; exact argsL_done cc P d spec rest []
+  | .date long args spec, d, inArg, hwf, _, hdep, rest => by
     rw [wfPat_date] at hwf
     simp only [Bool.and_eq_true] at hwf
     obtain ⟨hargs, hspec⟩ := hwf
@@ -161,27 +172,29 @@ theorem next_nonplain (cc : CharClass) (hcc : CCAscii cc) (P : Profile) (hus : P
       have hre : ('{' :: (dateName long ++ showDateArgs none ++ showSpec spec ++ ['}'])) ++ rest =
           '{' :: (dateName long ++ t :: tl) := by simp [showDateArgs, ← htl]
       rw [hre]
-      refine next_named cc hcc P _ t tl [] spec rest (isName_date cc hcc P long) ?_ ?_ hspec
+      refine next_named cc hcc P d _ t tl [] spec rest (isName_date cc hcc P long) ?_ ?_ hspec
       · rcases ht with h | h
         · exact Or.inl h
         · exact Or.inr (Or.inl h)
-      · rw [← htl]; exact argsL_done cc P spec rest []
+      · rw [← htl]; exact argsL_done cc P d spec rest []
     | some fz =>
+      rw [depthPat_date_some] at hdep
+      have hd : d ≠ P.maxDepth := by omega
       obtain ⟨f, z⟩ := fz
       simp only at hargs
       have hb1 : ∀ tail, NoParenHead tail →
-          argB cc P (showLits f ++ ')' :: tail) [] = .ok (litPieces [] f) tail := by
+          argB cc P (d + 1) (showLits f ++ ')' :: tail) [] = .ok (litPieces [] f) tail := by
         intro tail htail
-        simpa using argB_lits cc P hP f [] tail [] hargs (by simp) htail
+        simpa using argB_lits cc P (d + 1) hP f [] tail [] hargs (by simp) htail
       cases z with
       | none =>
         have hre : ('{' :: (dateName long ++ showDateArgs (some (f, none)) ++ showSpec spec ++ ['}'])) ++ rest =
             '{' :: (dateName long ++ '(' :: (showLits f ++ ')' :: (showSpec spec ++ '}' :: rest))) := by
           simp [showDateArgs]
         rw [hre]
-        refine next_named cc hcc P _ '(' _ _ spec rest (isName_date cc hcc P long) (Or.inr (Or.inr rfl)) ?_ hspec
-        rw [argsL_arg cc P _ _ [] _ (hb1 _ (noParen_specTail spec rest))]
-        exact argsL_done cc P spec rest _
+        refine next_named cc hcc P d _ '(' _ _ spec rest (isName_date cc hcc P long) (Or.inr (Or.inr rfl)) ?_ hspec
+        rw [argsL_arg cc P d hd _ _ [] _ (hb1 _ (noParen_specTail spec rest))]
+        exact argsL_done cc P d spec rest _
       | some z =>
         obtain ⟨hz1, hz2⟩ := zoneName_plain z
         have hre : ('{' :: (dateName long ++ showDateArgs (some (f, some z)) ++ showSpec spec ++ ['}'])) ++ rest =
@@ -189,78 +202,85 @@ theorem next_nonplain (cc : CharClass) (hcc : CCAscii cc) (P : Profile) (hus : P
               ('(' :: (zoneName z ++ ')' :: (showSpec spec ++ '}' :: rest))))) := by
           simp [showDateArgs]
         rw [hre]
-        refine next_named cc hcc P _ '(' _ _ spec rest (isName_date cc hcc P long) (Or.inr (Or.inr rfl)) ?_ hspec
-        rw [argsL_arg cc P _ _ [] _ (hb1 _ (noParen_open _))]
-        have hb2 : argB cc P (zoneName z ++ ')' :: (showSpec spec ++ '}' :: rest)) [] =
+        refine next_named cc hcc P d _ '(' _ _ spec rest (isName_date cc hcc P long) (Or.inr (Or.inr rfl)) ?_ hspec
+        rw [argsL_arg cc P d hd _ _ [] _ (hb1 _ (noParen_open _))]
+        have hb2 : argB cc P (d + 1) (zoneName z ++ ')' :: (showSpec spec ++ '}' :: rest)) [] =
             .ok [.text (zoneName z)] (showSpec spec ++ '}' :: rest) := by
-          simpa [hz2] using argB_plain cc P (zoneName z) (showSpec spec ++ '}' :: rest) [] hz1
+          simpa [hz2] using argB_plain cc P (d + 1) (zoneName z) (showSpec spec ++ '}' :: rest) [] hz1
             (noParen_specTail spec rest)
-        rw [argsL_arg cc P _ _ _ _ hb2]
-        simpa [dateArgPieces, zonePieces] using argsL_done cc P spec rest [litPieces [] f, [.text (zoneName z)]]
-  | .mdc long key dflt spec, inArg, hwf, _, rest => by
+        rw [argsL_arg cc P d hd _ _ _ _ hb2]
+        simpa [dateArgPieces, zonePieces] using argsL_done cc P d spec rest [litPieces [] f, [.text (zoneName z)]]
+  | .mdc long key dflt spec, d, inArg, hwf, _, hdep, rest => by
+    rw [depthPat_mdc] at hdep
+    have hd : d ≠ P.maxDepth := by omega
     rw [wfPat_mdc] at hwf
     simp only [Bool.and_eq_true] at hwf
-    obtain ⟨⟨⟨_, hkey⟩, hdflt⟩, hspec⟩ := hwf
+    obtain ⟨⟨hkey, hdflt⟩, hspec⟩ := hwf
     rw [showPat_mdc, pieceOf_mdc]
     have hb : ∀ (ls : List Lit), ls.all (wfLit true) = true → ∀ tail, NoParenHead tail →
-        argB cc P (showLits ls ++ ')' :: tail) [] = .ok (litPieces [] ls) tail := by
+        argB cc P (d + 1) (showLits ls ++ ')' :: tail) [] = .ok (litPieces [] ls) tail := by
       intro ls hls tail htail
-      simpa using argB_lits cc P hP ls [] tail [] hls (by simp) htail
+      simpa using argB_lits cc P (d + 1) hP ls [] tail [] hls (by simp) htail
     cases dflt with
     | none =>
       have hre : ('{' :: (mdcName long ++ ('(' :: showLits key ++ [')']) ++ showDflt none ++ showSpec spec ++ ['}'])) ++ rest =
           '{' :: (mdcName long ++ '(' :: (showLits key ++ ')' :: (showSpec spec ++ '}' :: rest))) := by
         simp [showDflt]
       rw [hre]
-      refine next_named cc hcc P _ '(' _ _ spec rest (isName_mdc cc hcc P long) (Or.inr (Or.inr rfl)) ?_ hspec
-      rw [argsL_arg cc P _ _ [] _ (hb key hkey _ (noParen_specTail spec rest))]
-      simpa [dfltPieces] using argsL_done cc P spec rest [litPieces [] key]
-    | some d =>
-      simp only [Bool.and_eq_true] at hdflt
-      have hre : ('{' :: (mdcName long ++ ('(' :: showLits key ++ [')']) ++ showDflt (some d) ++ showSpec spec ++ ['}'])) ++ rest =
+      refine next_named cc hcc P d _ '(' _ _ spec rest (isName_mdc cc hcc P long) (Or.inr (Or.inr rfl)) ?_ hspec
+      rw [argsL_arg cc P d hd _ _ [] _ (hb key hkey _ (noParen_specTail spec rest))]
+      simpa [dfltPieces] using argsL_done cc P d spec rest [litPieces [] key]
+    | some dl =>
+      have hre : ('{' :: (mdcName long ++ ('(' :: showLits key ++ [')']) ++ showDflt (some dl) ++ showSpec spec ++ ['}'])) ++ rest =
           '{' :: (mdcName long ++ '(' :: (showLits key ++ ')' ::
-            ('(' :: (showLits d ++ ')' :: (showSpec spec ++ '}' :: rest))))) := by
+            ('(' :: (showLits dl ++ ')' :: (showSpec spec ++ '}' :: rest))))) := by
         simp [showDflt]
       rw [hre]
-      refine next_named cc hcc P _ '(' _ _ spec rest (isName_mdc cc hcc P long) (Or.inr (Or.inr rfl)) ?_ hspec
-      rw [argsL_arg cc P _ _ [] _ (hb key hkey _ (noParen_open _))]
-      rw [argsL_arg cc P _ _ _ _ (hb d hdflt.2 _ (noParen_specTail spec rest))]
-      simpa [dfltPieces] using argsL_done cc P spec rest [litPieces [] key, litPieces [] d]
-  | .group k long body spec, inArg, hwf, _, rest => by
+      refine next_named cc hcc P d _ '(' _ _ spec rest (isName_mdc cc hcc P long) (Or.inr (Or.inr rfl)) ?_ hspec
+      rw [argsL_arg cc P d hd _ _ [] _ (hb key hkey _ (noParen_open _))]
+      rw [argsL_arg cc P d hd _ _ _ _ (hb dl hdflt _ (noParen_specTail spec rest))]
+      simpa [dfltPieces] using argsL_done cc P d spec rest [litPieces [] key, litPieces [] dl]
+  | .group k long body spec, d, inArg, hwf, _, hdep, rest => by
+    rw [depthPat_group] at hdep
+    have hd : d ≠ P.maxDepth := by omega
     rw [wfPat_group] at hwf
     simp only [Bool.and_eq_true] at hwf
     obtain ⟨hbody, hspec⟩ := hwf
     rw [showPat_group, pieceOf_group]
-    have hb : argB cc P (showPats body ++ ')' :: (showSpec spec ++ '}' :: rest)) [] =
+    have hb : argB cc P (d + 1) (showPats body ++ ')' :: (showSpec spec ++ '}' :: rest)) [] =
         .ok (piecesOf [] body) (showSpec spec ++ '}' :: rest) := by
-      simpa using argB_pats cc hcc P hus hP body hbody [] (by simp) (showSpec spec ++ '}' :: rest)
+      simpa using argB_pats cc hcc P hus hP body (d + 1) hbody (by omega) [] (by simp) (showSpec spec ++ '}' :: rest)
         (noParen_specTail spec rest) []
-    have hargs : argsL cc P ('(' :: (showPats body ++ ')' :: (showSpec spec ++ '}' :: rest))) [] =
+    have hargs : argsL cc P d ('(' :: (showPats body ++ ')' :: (showSpec spec ++ '}' :: rest))) [] =
         .ok [piecesOf [] body] (showSpec spec ++ '}' :: rest) := by
-      rw [argsL_arg cc P _ _ [] _ hb]
-      exact argsL_done cc P spec rest _
+      rw [argsL_arg cc P d hd _ _ [] _ hb]
+      exact argsL_done cc P d spec rest _
     by_cases hk : k = .align
     · subst hk
       have hre : ('{' :: (groupName .align long ++ ('(' :: showPats body ++ [')']) ++ showSpec spec ++ ['}'])) ++ rest =
           '{' :: '(' :: (showPats body ++ ')' :: (showSpec spec ++ '}' :: rest)) := by
         simp [groupName]
       rw [hre]
-      simpa [groupName] using next_unnamed cc hcc P _ _ spec rest hargs hspec
+      simpa [groupName] using next_unnamed cc hcc P d _ _ spec rest hargs hspec
     · have hre : ('{' :: (groupName k long ++ ('(' :: showPats body ++ [')']) ++ showSpec spec ++ ['}'])) ++ rest =
           '{' :: (groupName k long ++ '(' :: (showPats body ++ ')' :: (showSpec spec ++ '}' :: rest))) := by
         simp
       rw [hre]
-      exact next_named cc hcc P _ '(' _ _ spec rest (isName_group cc hcc P k long hk) (Or.inr (Or.inr rfl)) hargs hspec
+      exact next_named cc hcc P d _ '(' _ _ spec rest (isName_group cc hcc P k long hk) (Or.inr (Or.inr rfl)) hargs hspec
 /-- the argument loop on a printed pattern list (pending ordinary text `pre`) up to its `)` -/
 theorem argB_pats (cc : CharClass) (hcc : CCAscii cc) (P : Profile) (hus : P.underscoreNames = true)
     (hP : P.doubledCloseParen = true) :
-    ∀ (ps : List Pat), wfPats P.wordBits true ps = true → ∀ pre : List Char, pre.all nonSpecial = true →
+    ∀ (ps : List Pat) (d : Nat), wfPats P.wordBits true ps = true → depthPats ps + d ≤ P.maxDepth →
+      ∀ pre : List Char, pre.all nonSpecial = true →
       ∀ (more : List Char), NoParenHead more → ∀ (acc : List Piece),
-        argB cc P (pre ++ (showPats ps ++ ')' :: more)) acc = .ok (acc ++ piecesOf pre ps) more
-  | [], _, pre, hpre, more, hm, acc => by
+        argB cc P d (pre ++ (showPats ps ++ ')' :: more)) acc = .ok (acc ++ piecesOf pre ps) more
+  | [], d, _, _, pre, hpre, more, hm, acc => by
     rw [showPats_nil, piecesOf_nil]
-    simpa using argB_plain cc P pre more acc hpre hm
-  | p :: ps, hwf, pre, hpre, more, hm, acc => by
+    simpa using argB_plain cc P d pre more acc hpre hm
+  | p :: ps, d, hwf, hdep, pre, hpre, more, hm, acc => by
+    rw [depthPats_cons] at hdep
+    have hdp : depthPat p + d ≤ P.maxDepth := by omega
+    have hdps : depthPats ps + d ≤ P.maxDepth := by omega
     rw [wfPats_cons] at hwf
     simp only [Bool.and_eq_true] at hwf
     obtain ⟨hp, hps⟩ := hwf
@@ -272,22 +292,22 @@ theorem argB_pats (cc : CharClass) (hcc : CCAscii cc) (P : Profile) (hus : P.und
       rw [wfPat_lit] at hp
       have hns := wfLit_plain hp he
       rw [hc] at hns
-      have ih := argB_pats cc hcc P hus hP ps hps (pre ++ [c]) (all_nonSpecial_snoc hpre hns) more hm acc
+      have ih := argB_pats cc hcc P hus hP ps d hps hdps (pre ++ [c]) (all_nonSpecial_snoc hpre hns) more hm acc
       simp only [showPat_lit, showLit, he, hc]
       simpa using ih
     | none =>
       obtain ⟨hd, tl, hshape, hsp, hne⟩ := showPat_head P.wordBits true p (showPats ps ++ ')' :: more) hp hpc
-      have hn := next_nonplain cc hcc P hus hP p true hp hpc (showPats ps ++ ')' :: more)
-      have ih := argB_pats cc hcc P hus hP ps hps [] (by simp) more hm (acc ++ flushText pre ++ [pieceOf p])
+      have hn := next_nonplain cc hcc P hus hP p d true hp hpc hdp (showPats ps ++ ')' :: more)
+      have ih := argB_pats cc hcc P hus hP ps d hps hdps [] (by simp) more hm (acc ++ flushText pre ++ [pieceOf p])
       simp only [List.append_assoc]
-      rw [argB_flush' cc P pre _ acc hpre (by rw [hshape]; exact hsp)]
+      rw [argB_flush' cc P d pre _ acc hpre (by rw [hshape]; exact hsp)]
       rcases hne with hne | ⟨l, hl, he⟩
       · rw [hshape] at hn ⊢
-        rw [argB_step cc P hd tl _ hne _ _ hn]
+        rw [argB_step cc P d hd tl _ hne _ _ hn]
         simpa using ih
       · subst hl
         rw [wfPat_lit] at hp
-        rw [showPat_lit, argB_escape cc P hP l _ _ hp he]
+        rw [showPat_lit, argB_escape cc P d hP l _ _ hp he]
         rw [pieceOf_lit] at ih ⊢
         simpa using ih
 end
